@@ -61,6 +61,13 @@ def programs(ctx):
                 r2 = {'part': part, 'head': ('norm', h2, d2), 'body': [('p', ('patom', 'r', 0))]}
                 progs.append(('one-name', [ch, r1, r2]))
                 progs.append(('one-name', [r2, ch, r1]))
+    # fixed family: negated and doubly negated heads over future atoms (`not p' :- q.` and `not not p' :- q.` are constraints: `:- q, p'.` / `:- q, not p'.`)
+    for part in ('initial', 'always', 'dynamic'):
+        for sg in 'nm':
+            for d in (1, 2):
+                c = [{'part': 'always', 'head': ('choice', ['a', 'b']), 'body': []}, {'part': part, 'head': ('neghead', sg, 'a', d), 'body': [('p', ('patom', 'b', 0))]}]
+                progs.append(('negated-future-head', c))
+                progs.append(('negated-future-head', [c[1], c[0], {'part': part, 'head': ('neghead', sg, 'b', 0), 'body': [('n', ('patom', 'a', 1))]}]))
     # fixed family: MORE look-ahead constraints of one depth in one part than that depth (every one of them has its temporary and its permanent copy)
     for part in ('initial', 'always', 'dynamic'):
         for d in (1, 2):
